@@ -30,6 +30,14 @@ def _a(a, **kw):
 # certificate), observed by running the repository synchronisation before
 # the parent synchronisation that completes the roll
 DIRECTED = [
+    # a child that knows its class under another name rolls its key: the
+    # old key's certificate must be revoked and withdrawn by the parent
+    {"actions": [
+        _a("AddCa", c="B", p="A", res=["p1", "p2"]),
+        _a("ChildMap", c="B", p="A", in_parent="0", for_child="mapped"),
+        _a("Settle"), _a("RoaAdd", c="B", r=["p1", "a1"]), _a("Settle"),
+        _a("RollInit", c="B"), _a("Settle"), _a("RollActivate", c="B"),
+        _a("Settle"), _a("Settle")]},
     {"actions": [
         _a("AddCa", c="B", p="A", res=["p1", "p2"]), _a("Settle"),
         _a("RoaAdd", c="B", r=["p1", "a1"]), _a("RoaAdd", c="B", r=["p2", "a1"]),
